@@ -1094,6 +1094,17 @@ func vRunSchedule(s *vSchedule, base string, seq int, emit func(vEvent)) {
 	emit(vEvent{Sched: s.Name, N: len(s.Steps), Ev: "End"})
 }
 
+// vQuiet: the real code logs every step; keep the pipes quiet unless asked.
+func vQuiet() {
+	if os.Getenv("VERIF_FSM_VERBOSE") == "" {
+		flag.Set("stderrthreshold", "FATAL")
+		flag.Set("log_dir", os.TempDir())
+		log.SetOutput(io.Discard)
+	} else {
+		flag.Set("logtostderr", "true")
+	}
+}
+
 // TestVerifFSM runs every schedule of $VERIF_FSM_PROGRAM (a JSON array, or
 // ND-JSON) and appends one event per step to $VERIF_FSM_OUT.
 func TestVerifFSM(t *testing.T) {
@@ -1102,14 +1113,7 @@ func TestVerifFSM(t *testing.T) {
 	if prog == "" || outp == "" {
 		t.Skip("VERIF_FSM_PROGRAM / VERIF_FSM_OUT not set")
 	}
-	if os.Getenv("VERIF_FSM_VERBOSE") == "" {
-		// the real code logs every step; keep the pipes quiet
-		flag.Set("stderrthreshold", "FATAL")
-		flag.Set("log_dir", os.TempDir())
-		log.SetOutput(io.Discard)
-	} else {
-		flag.Set("logtostderr", "true")
-	}
+	vQuiet()
 	base := os.Getenv("VERIF_FSM_DIR")
 	if base == "" {
 		var err error
